@@ -248,10 +248,13 @@ def strategy_spec():
         st.fixed_dictionaries({"c": st.just("LeastSquaresScipyStrategy"), "ftol": _f, "xtol": _f, "gtol": _f, "max_nfev": st.one_of(st.none(), st.integers(1, 500)),
                                "npixels": st.one_of(st.none(), st.integers(1, 10000))}),
         st.fixed_dictionaries({"c": st.just("EmceeStrategy"), "nwalkers": st.integers(2, 200), "nsamples": st.one_of(st.none(), st.integers(1, 5000)), "npixels": st.one_of(st.none(), st.integers(1, 1000)),
-                               "parallel": st.sampled_from(["auto", None, 2, "mpi"]), "seed": st.one_of(st.none(), st.integers(0, 2 ** 31))}),
+                               "parallel": st.sampled_from(["auto", None, 2, "mpi"]), "seed": st.one_of(st.none(), st.integers(0, 2 ** 31)),
+                               # initial walker positions: an (n walkers, k parameters) array, incl. one walker or one parameter
+                               "wip": st.one_of(st.none(), st.none(), st.tuples(st.integers(1, 4), st.integers(1, 3), st.integers(0, 1000)).map(list))}),
         st.fixed_dictionaries({"c": st.just("CmaStrategy"), "npixels": st.one_of(st.none(), st.integers(1, 1000)), "popsize": st.one_of(st.none(), st.integers(2, 100)),
                                "resample": st.booleans(), "parent_fraction": gen.rounded(0.05, 0.9, 3), "tols": st.sampled_from([{}, {"maxiter": 10}, {"tolx": 1e-3, "tolfun": 1e-5}]),
-                               "seed": st.one_of(st.none(), st.integers(0, 2 ** 31)), "parallel": st.sampled_from(["auto", None])}),
+                               "seed": st.one_of(st.none(), st.integers(0, 2 ** 31)), "parallel": st.sampled_from(["auto", None]),
+                               "wip": st.one_of(st.none(), st.none(), st.tuples(st.integers(1, 4), st.integers(1, 3), st.integers(0, 1000)).map(list))}),
         st.fixed_dictionaries({"c": st.just("TemperedStrategy"), "nwalkers": st.integers(2, 200), "nsamples": st.integers(1, 5000), "npixels": st.integers(20, 2000),
                                "min_pixels": st.one_of(st.none(), st.integers(1, 20)), "stages": st.integers(1, 5), "stage_len": st.integers(1, 100),
                                "parallel": st.sampled_from(["auto", None]), "seed": st.one_of(st.none(), st.integers(0, 2 ** 31))}),
@@ -266,11 +269,16 @@ def build_strategy(d):
         return I.NmpfitStrategy(npixels=d["npixels"], quiet=d["quiet"], ftol=d["ftol"], xtol=d["xtol"], gtol=d["gtol"], maxiter=d["maxiter"], seed=d["seed"])
     if c == "LeastSquaresScipyStrategy":
         return I.LeastSquaresScipyStrategy(ftol=d["ftol"], xtol=d["xtol"], gtol=d["gtol"], max_nfev=d["max_nfev"], npixels=d["npixels"])
+    def wip_array():
+        w = d.get("wip")
+        if w is None:
+            return None
+        return np.random.RandomState(w[2]).uniform(0.1, 2.0, size=(w[0], w[1])).round(4)
     if c == "EmceeStrategy":
-        return I.EmceeStrategy(nwalkers=d["nwalkers"], nsamples=d["nsamples"], npixels=d["npixels"], parallel=d["parallel"], seed=d["seed"])
+        return I.EmceeStrategy(nwalkers=d["nwalkers"], nsamples=d["nsamples"], npixels=d["npixels"], parallel=d["parallel"], seed=d["seed"], walker_initial_pos=wip_array())
     if c == "CmaStrategy":
         return I.CmaStrategy(npixels=d["npixels"], popsize=d["popsize"], resample_pixels=d["resample"], parent_fraction=d["parent_fraction"], tols=dict(d["tols"]),
-                             seed=d["seed"], parallel=d["parallel"])
+                             seed=d["seed"], parallel=d["parallel"], walker_initial_pos=wip_array())
     if c == "TemperedStrategy":
         return I.TemperedStrategy(nwalkers=d["nwalkers"], nsamples=d["nsamples"], npixels=d["npixels"], min_pixels=d["min_pixels"], stages=d["stages"],
                                   stage_len=d["stage_len"], parallel=d["parallel"], seed=d["seed"])
